@@ -8,6 +8,11 @@ NOTES = {
  "C03-seed2": "the generator as it stood never put white space between tags; caught by the new pretty-printed family `enc-indented`",
  "C05-seed2": "C05 as it stood never moved a style object between workbooks; caught by the new `transfer` space",
  "C04-seed2": "missed by C04 as it stood (exit 0: every edit hit an existing cell or a column right of all column entries) but caught by C05 (dims space); C04 catches it since the loaded special `column-entries-with-gap` and the edit position 'first column without an entry left of one' were added",
+ "C02-seed3": "not reachable by C02 as it stood (needs a lazily opened workbook with an unloaded sheet in front of an edited one): caught by C11 as it stood; C02 now has the `lazy-corpus` space (lazy load, edit first/last sheet, eager twin as model)",
+ "C04-seed3": "not reachable by C04 (its sources are loaded eagerly): caught by C11 as it stood (numbered parts of a materialised sheet collide with those of unloaded sheets)",
+ "C05-seed3": "missed by C05 as it stood when the seed arrived (no case formatted NEW cells of a reloaded workbook with a style rebuilt from scratch that the file already contains); caught by the `second-session` space that was added for it (twin oracle; the out-of-range xf index also makes the reload panic)",
+ "C06-seed3": "missed by C06 as it stood (sheets were only removed by index); caught after the sheet operations `remove-first-by-name`, `remove-middle-by-name` and `remove-middle` were added",
+ "C01-seed3": "caught by C01 as it stood (formula with an error-kind cached result in the value alphabet)",
  "C09-seed2": "caught by C09 as it stood (translate clause: a reference leaving the grid followed by another reference) and by C03 (shared-edge family)",
 
  "C11-seed1": "missed by the check as it stood when the seed arrived (exit 0: no operation of the alphabet made a materialised sheet need a NEW numbered dependent part); caught after the edit operation also adds a comment (clause saved-content-equals-eager, the unloaded sheet's comments are replaced)",
